@@ -1,5 +1,5 @@
 (* C15 — property theorems.  Nothing but statements, `exact`, Print Assumptions. *)
-From G11 Require Import Timeouts TimeoutsCheck TimeoutsProofs TimeoutsGeneral TimeoutsHandshake Obligations.
+From G11 Require Import Timeouts RateLimit TimeoutsCheck TimeoutsProofs TimeoutsGeneral TimeoutsHandshake Obligations.
 Open Scope Z_scope.
 
 (* A connection that makes no progress in a phase is closed exactly when the limit in force has
@@ -152,6 +152,36 @@ Theorem T15_model_expresses_accept_delay : forall calls c L,
   serve_loop calls c (Some 0) [mkpeer 0 None; mkpeer 0 (Some 0)] = [Some L; Some L].
 Proof. exact serve_loop_blocks_witness. Qed.
 Print Assumptions T15_model_expresses_accept_delay.
+
+(* A rate-limited listener (--read-limit / --write-limit): all its connections draw on one token bucket.
+   Connections parked in Read hold no tokens: for every rate and burst size, every bucket level, and every
+   history evs of the bucket - time passing, completed reads and writes of other connections, and any
+   number of peers parking in Read anywhere in between - the level, and therefore the time any client's
+   WaitN(n) has to wait, is the same as in the history with the parked peers removed. *)
+Theorem T15_parked_peers_hold_no_tokens : forall rate burst evs lvl n,
+  level rate burst ratelimit_read_prog evs lvl = level rate burst ratelimit_read_prog (without_parked evs) lvl /\
+  wait_ms rate (level rate burst ratelimit_read_prog evs lvl) n =
+  wait_ms rate (level rate burst ratelimit_read_prog (without_parked evs) lvl) n.
+Proof.
+  exact (fun rate burst evs lvl n =>
+    conj (parked_invisible rate burst _ ob_parked_reader_holds_no_tokens evs lvl)
+         (probe_wait_independent rate burst _ ob_parked_reader_holds_no_tokens evs lvl n)).
+Qed.
+Print Assumptions T15_parked_peers_hold_no_tokens.
+
+(* The model can express the defect: if the limiter is charged before the Read (for the buffer), N parked
+   peers take N buffers out of the bucket; with forwarder's 4 MiB burst, 64 KiB/s and a 4 KiB read buffer,
+   1100 silent peers make a fresh client wait 4.7 s for its first 256 bytes. *)
+Theorem T15_model_expresses_token_starvation :
+  (forall rate burst prog buf n lvl, 0 <= buf -> park_cost prog buf = buf ->
+     level rate burst prog (repeat (RPark buf) n) lvl = lvl - Z.of_nat n * buf) /\
+  parked_delay [b "c.rxLimiter.WaitN(waitContext, len(b))"; b "c.Conn.Read(b)"] 65536 1100 256 = 4754 /\
+  parked_delay ratelimit_read_prog 65536 1100 256 = 0.
+Proof.
+  exact (conj (fun rate burst prog buf n lvl Hb Hp => parked_cost_prepaid rate burst prog buf Hb Hp n lvl)
+          (conj eq_refl (parked_delay_zero _ 65536 1100 256 ob_parked_reader_holds_no_tokens (conj (proj1 (Z.leb_le 0 256) eq_refl) (proj1 (Z.leb_le 256 4194304) eq_refl))))).
+Qed.
+Print Assumptions T15_model_expresses_token_starvation.
 
 (* Non-vacuity: PROXY + TLS listener; header and handshake complete, first request byte at 30,
    then a trickle: closed at 30 + read-header-timeout, not earlier. *)
